@@ -16,6 +16,8 @@ for line in (V / "known_findings.txt").read_text().splitlines():
     props = [prop] + re.findall(r"also (C\d+)", what)
     diff = subprocess.run(["git", "-C", "/repo", "diff", commit, commit + "^"], capture_output=True, text=True).stdout
     p = subprocess.run(["git", "-C", WT, "apply", "-"], input=diff, capture_output=True, text=True)
+    if p.returncode:        # a later fix touches neighbouring lines: three-way merge of the reverse patch
+        p = subprocess.run(["git", "-C", WT, "apply", "--3way", "-"], input=diff, capture_output=True, text=True)
     if p.returncode:
         res[commit] = {"props": props, "result": "reverse patch does not apply (later fix touches the same lines)", "what": what}
         print(commit, res[commit]["result"]); continue
